@@ -173,6 +173,7 @@ pub fn run(ctx: &Ctx) {
         ctx.add("distinct_document_multisets", sets as u64);
     }
     names_part(ctx);
+    families(ctx);
     // the reference's own laws, exhaustively on the small alphabet: join is commutative and idempotent and agrees with batch inference
     let alphabet = materialise(plain_cfg(2));
     let mut law_checks = 0u64;
@@ -323,6 +324,137 @@ fn names_part(ctx: &Ctx) {
     ctx.add("traces_validated_against_impl", evals);
     ctx.set("named_trees", json!({"pool": pool.len(), "subsets": subs.len(), "subsets_done": res.processed, "nodes_max": params.max_nodes, "transitions": evals}));
     if !res.complete {
+        ctx.set("exhaustive", json!(false));
+    }
+}
+
+/// an input that breaks off with an I/O error of the given kind after `good` has been delivered
+struct FailingReader<'a> {
+    good: &'a [u8],
+    pos: usize,
+    kind: std::io::ErrorKind,
+}
+
+impl<'a> std::io::Read for FailingReader<'a> {
+    fn read(&mut self, buf: &mut [u8]) -> std::io::Result<usize> {
+        use std::io::BufRead;
+        let n = {
+            let a = self.fill_buf()?;
+            let n = a.len().min(buf.len());
+            buf[..n].copy_from_slice(&a[..n]);
+            n
+        };
+        self.consume(n);
+        Ok(n)
+    }
+}
+
+impl<'a> std::io::BufRead for FailingReader<'a> {
+    fn fill_buf(&mut self) -> std::io::Result<&[u8]> {
+        if self.pos >= self.good.len() {
+            return Err(std::io::Error::new(self.kind, "injected I/O error"));
+        }
+        Ok(&self.good[self.pos..])
+    }
+    fn consume(&mut self, amt: usize) {
+        self.pos += amt;
+    }
+}
+
+/// further families: histories [d, d, e] over a structure-only space with three element names,
+/// documents with hundreds of occurrences supplied twice, and extensions whose reader fails
+fn families(ctx: &Ctx) {
+    use crate::docspace::{Space, SpaceCfg};
+    let sp = Space::new(SpaceCfg {
+        root: "r".into(),
+        enames: vec!["a".into(), "b".into(), "c".into()],
+        anames: vec![],
+        attr_seq: false,
+        max_attrs: 0,
+        depth: 3,
+        kinds: vec![],
+        both_empty: false,
+        root_attrs: false,
+        max_weight: ctx.tier.pick(4, 5),
+    });
+    let nd = sp.len_upto(ctx.tier.pick(3, 4));
+    let docs: Vec<DocEntry> = (0..sp.len()).map(|i| DocEntry::from_root(sp.get(i))).collect();
+    let table = OrderTable::new();
+    let step = |el: &Element<String>, before: &[&DocEntry], d: &DocEntry, rank: u64| -> Option<Element<String>> {
+        let ev = Event::doc(d.clone());
+        let succ = match subject::guarded(|| subject::extend(el.clone(), &ev.bytes)) {
+            Ok(Ok(e)) => Some(e),
+            _ => None,
+        };
+        let t = Transition { pred: el, before: before.to_vec(), event: &ev, succ: succ.as_ref(), rank };
+        ctx.report_all(judge_transition(&t, Some(&table)));
+        succ
+    };
+    let n = docs.len() as u64;
+    let res = crate::par::par_for(
+        nd * n,
+        ctx.threads,
+        64,
+        Some(ctx.deadline),
+        |_| 0u64,
+        |acc, idx| {
+            let d = &docs[(idx / n) as usize];
+            let e = &docs[(idx % n) as usize];
+            let rank = (1 << 51) | idx;
+            if let Ok(el0) = run_history(&[d]) {
+                if let Some(el1) = step(&el0, &[d], d, rank) {
+                    if step(&el1, &[d, d], e, rank).is_some() {
+                        *acc += 2;
+                    }
+                }
+            }
+        },
+    );
+    let mut transitions: u64 = res.accs.iter().sum();
+    // many occurrences, supplied twice and followed by a short document
+    let many = many_occurrence_docs(ctx.tier.pick(1100, 70_000));
+    let short = DocEntry::from_xml("<r><a><b/></a></r>").expect("doc");
+    let res2 = crate::par::par_for(
+        many.len() as u64,
+        ctx.threads,
+        1,
+        Some(ctx.deadline),
+        |_| 0u64,
+        |acc, i| {
+            let d = &many[i as usize];
+            let rank = (1 << 52) | i;
+            if let Ok(el0) = run_history(&[d]) {
+                if let Some(el1) = step(&el0, &[d], d, rank) {
+                    if step(&el1, &[d, d], &short, rank).is_some() {
+                        *acc += 2;
+                    }
+                }
+            }
+        },
+    );
+    transitions += res2.accs.iter().sum::<u64>();
+    // an extension whose reader breaks off with an I/O error must return Err, whatever the kind
+    let base = run_history(&[&short]).ok();
+    if let Some(base) = base {
+        for kind in [std::io::ErrorKind::Other, std::io::ErrorKind::UnexpectedEof, std::io::ErrorKind::BrokenPipe, std::io::ErrorKind::InvalidData] {
+            for good in ["<r><c/><a>", "<r><a><b/></a><c", "<r>", ""] {
+                let r = subject::guarded(|| subject::extend_reader(base.clone(), FailingReader { good: good.as_bytes(), pos: 0, kind }, &subject::RCfg::default()));
+                transitions += 1;
+                if let Ok(Ok(_)) = r {
+                    ctx.report(Violation {
+                        class: "io-error-accepted".into(),
+                        summary: format!("extend_struct returned Ok although the reader failed with {:?} after `{}` (partial result instead of an error)", kind, good),
+                        replay: json!({"docs": [short.xml], "io_error_after": good, "kind": format!("{:?}", kind)}),
+                        rank: 0,
+                    });
+                }
+            }
+        }
+    }
+    ctx.add("transitions", transitions);
+    ctx.add("traces_validated_against_impl", transitions);
+    ctx.set("families", json!({"three_name_documents": docs.len(), "histories_d_d_e": nd * n, "many_occurrence_documents": many.len(), "io_error_extensions": 16}));
+    if !res.complete || !res2.complete {
         ctx.set("exhaustive", json!(false));
     }
 }
